@@ -428,6 +428,8 @@ type datum struct {
 	GoVersion string
 	Key       string
 	Value     int64
+
+	stack bool // the datum comes from a stack counter
 }
 
 // formatDateTime formats the date to the format that
@@ -464,11 +466,21 @@ func charts(reports []*telemetryReport, cfg *config.Config) (*chartdata, error) 
 		prog := &program{ID: "charts:" + pg.Name, Name: pg.Name, Active: cfg.HasProgram(pg.Name)}
 		result.Programs = append(result.Programs, prog)
 		for c, cdata := range pgdata {
+			// A chart may hold data of a counter and of a stack counter of the
+			// same name; each kind is looked up in its own list of the config.
+			active := false
+			for _, d := range cdata {
+				if d.stack {
+					active = active || cfg.HasStack(pg.Name, c.Name)
+				} else {
+					active = active || cfg.HasCounter(pg.Name, c.Name) || cfg.HasCounterPrefix(pg.Name, c.Name)
+				}
+			}
 			count := &counter{
 				ID:     "charts:" + pg.Name + ":" + c.Name,
 				Name:   c.Name,
 				Data:   cdata,
-				Active: cfg.HasCounter(pg.Name, c.Name) || cfg.HasCounterPrefix(pg.Name, c.Name) || cfg.HasStack(pg.Name, c.Name),
+				Active: active,
 			}
 			prog.Counters = append(prog.Counters, count)
 			sort.Slice(count.Data, func(i, j int) bool {
@@ -565,6 +577,7 @@ func grouped(reports []*telemetryReport) map[programKey]map[counterKey][]*datum 
 					GoVersion: e.GoVersion,
 					Key:       summary,
 					Value:     value,
+					stack:     true,
 				}
 				ckey := counterKey{summary}
 				result[pgkey][ckey] = append(result[pgkey][ckey], element)
